@@ -19,12 +19,16 @@ import (
 
 	"github.com/cockroachdb/pebble"
 	"github.com/cockroachdb/pebble/internal/testkeys"
-	"github.com/cockroachdb/pebble/internal/verifhook"
 	"github.com/cockroachdb/pebble/internal/verif/vcommon"
+	"github.com/cockroachdb/pebble/internal/verifhook"
 	"github.com/cockroachdb/pebble/sstable"
 	"github.com/cockroachdb/pebble/sstable/colblk"
 	"github.com/cockroachdb/pebble/vfs"
 )
+
+// markerOps counts completed marker writes (see writeMarker); the checkpoint
+// yield point waits on it.
+var markerOps atomic.Int64
 
 // yieldStats counts hits per hook site.
 type yieldStats struct {
@@ -47,6 +51,19 @@ func installYields(seed uint64, ys *yieldStats) func() {
 			h = (h ^ uint64(site[i])) * 0x100000001B3
 		}
 		h ^= h >> 29
+		if strings.HasPrefix(site, "checkpoint.") {
+			// the window between capturing the version and copying the WALs:
+			// long enough for other goroutines to complete an ingest and a commit
+			if h%2 == 0 {
+				// hold the checkpoint until a few more markers (ingest, then commit)
+				// have completed, or 1.5 s have passed; only the schedule depends on it
+				start, t0 := markerOps.Load(), time.Now()
+				for markerOps.Load() < start+5 && time.Since(t0) < 1500*time.Millisecond {
+					time.Sleep(2 * time.Millisecond)
+				}
+			}
+			return
+		}
 		switch h % 64 {
 		case 0, 1, 2, 3, 4, 5:
 			runtime.Gosched()
@@ -121,36 +138,36 @@ func tokenOf(v []byte) string {
 }
 
 type batchRec struct {
-	token    string
-	groups   []int
-	call     int64 // logical time before the commit call
-	ret      int64 // logical time after it returned (0 = never)
-	seq      uint64
-	count    uint32
-	size     int
-	large    bool
+	token     string
+	groups    []int
+	call      int64 // logical time before the commit call
+	ret       int64 // logical time after it returned (0 = never)
+	seq       uint64
+	count     uint32
+	size      int
+	large     bool
 	committer int
 }
 
 // World is one concurrent run on one DB.
 type World struct {
-	diagMu sync.Mutex
-	diag   map[int64]string // t0 -> extra diagnostics for a failing view
-	AlwaysStability bool // every iterator view is re-read and cloned (C04)
-	R       *vcommon.Report
-	Case    int
-	DB      *pebble.DB
-	Opts    *pebble.Options
-	FS      vfs.FS
-	Groups  int
-	clock   atomic.Int64
-	mu      sync.Mutex
-	batches map[string]*batchRec // by token
-	failed  atomic.Bool
-	largeThreshold int
+	diagMu          sync.Mutex
+	diag            map[int64]string // t0 -> extra diagnostics for a failing view
+	AlwaysStability bool             // every iterator view is re-read and cloned (C04)
+	R               *vcommon.Report
+	Case            int
+	DB              *pebble.DB
+	Opts            *pebble.Options
+	FS              vfs.FS
+	Groups          int
+	clock           atomic.Int64
+	mu              sync.Mutex
+	batches         map[string]*batchRec // by token
+	failed          atomic.Bool
+	largeThreshold  int
 
 	views, viewsInFlight, rkViews atomic.Int64
-	opCounts                       sync.Map // name -> *atomic.Int64
+	opCounts                      sync.Map // name -> *atomic.Int64
 }
 
 func (w *World) count(name string) {
@@ -617,7 +634,6 @@ func (w *World) numLarge() int {
 	}
 	return n
 }
-
 
 // inconsistent is the quick form of checkView's atomicity rule.
 func (w *World) inconsistent(pts map[string]string, rks map[int]string) bool {
